@@ -8,27 +8,28 @@ SPEC = {
         'name': 'index', 'pkg': '.', 'test': 'TestVerifC04',
         'files': [('.', 'harness/root/zz_verif_meta_common_test.go'),
                   ('.', 'harness/root/zz_verif_c04_test.go')],
-        'model_module': 'Model.C04_Index', 'imports': ['From Wesh Require Import Model.MetaLog.'],
+        'model_module': 'Model.C04_Index', 'imports': ['From Wesh Require Import Model.MetaLog Model.C04_Alias.'],
         'shard': 150, 'timeout': 1500,
     }],
     'rule': 'random histories (2-13 operations) of two devices of one account on their account group (the seven contact operations, '
             'enable/disable, seed reset, join/leave of two groups, credentials, device announcements) and of three devices of two '
-            'accounts on a multi-member group (ownership claims, device announcements, secrets, payloads), with random one-way '
+            'accounts on a multi-member group (ownership claims, device announcements, secrets, payloads), and of the three devices of two accounts on the contact group they share (device announcements, alias keys, secrets, payloads; a device may publish its alias key before or without announcing itself), with random one-way '
             'synchronisations between the writers so that concurrent (causally unordered) entries arise; the union of the entries '
             'is delivered by the real replicator to fresh replicas: one batch, one batch then reopen, one by one in log order, newest '
             'first, every order for histories of <= 4 entries, random orders split into random batches with a reopen at a random '
             'step; after EVERY delivery step the getters are compared with the model fed with the successive contents of the '
-            "replica's entry map; the writers' own sequence of indexes is compared too; non-trivial = log of >= 3 entries; "
+            "replica's entry map (for contact groups also the alias keys: CAlias cases); the other getters of the store (ListDevices, ListMembers, GetDevicesForMember, ListOtherMembersDevices, ListAdmins, ListMultiMemberGroups, GetIncomingContactRequestsStatus, ListContactsByStatus) must agree with the ones the model is compared with; the writers' own sequence of indexes is compared too; non-trivial = log of >= 3 entries; "
             'distinct = history x delivery plan x step',
     'trusted_base': [
         'Coq 8.16.1 kernel; vm_compute for evaluating the model on cases',
-        'translator gen/index.go (entry source and scan direction of UpdateIndex, its resets, first-wins shape of the handlers, arguments of sorting.Sort, entry source of both ListEvents)',
+        'translator gen/index.go (entry source and scan direction of UpdateIndex, its resets, first-wins shape of the handlers, arguments of sorting.Sort, entry source of both ListEvents; what the alias-key handler and its post-index action touch, when the action runs, whether its walk can stop early)',
         'axiom: Coq.Logic.FunctionalExtensionality.functional_extensionality_dep (standard library; states hold Coq functions as maps)',
         'harness/root/zz_verif_c04_test.go, harness/root/zz_verif_meta_common_test.go (replicas over one in-memory IPFS node, '
         'silent pubsub; entries opened by the real openMetadataEntry and translated to model events; numbering by first appearance)',
         'modelled, not verified: go-ipfs-log join/heads, go-orbit-db replicator and cache (exercised, their output order is an input of '
-        'the model), event sealing/opening (C03), alias-key bookkeeping of contact groups (not modelled)',
+        'the model), event sealing/opening (C03); the alias keys have no getter, the harness reads the two index fields',
     ],
     'assumptions': ['a device is announced for one member only (dev_functional; what honest devices do)',
-                    'entries that fail to open are skipped by the index'],
+                    'entries that fail to open are skipped by the index',
+                    'alias keys: latest = oldest only when the other member publishes one key (what ContactSendAliasKey does); C04_alias_oldest_stays_observation'],
 }
